@@ -686,10 +686,10 @@ func (p *parser) escape(out []byte, clob bool) []byte {
 					return utf8.AppendRune(out, rune(0x10000+(v-0xD800)<<10+(lo-0xDC00)))
 				}
 			}
-			p.fail(Unsupported, start, "unpaired surrogate escape")
+			p.fail(Invalid, start, "unpaired surrogate escape")
 		}
 		if v >= 0xDC00 && v <= 0xDFFF {
-			p.fail(Unsupported, start, "unpaired surrogate escape")
+			p.fail(Invalid, start, "unpaired surrogate escape")
 		}
 		return utf8.AppendRune(out, rune(v))
 	}
